@@ -117,7 +117,9 @@ pub mod bincode {
     pub type Result<T> = core::result::Result<T, Error>;
 }
 /// ghost log of one background task (C18): wake-ups after a completed sleep, hand-offs to the blocking pool, the last sleep
-pub struct BgLog { pub ghost ticks: nat, pub ghost blocking_calls: nat, pub ghost last_sleep_ms: int }
+pub struct BgLog { pub ghost ticks: nat, pub ghost blocking_calls: nat, pub ghost last_sleep_ms: int,
+                   /// the task has been told to stop (its Shutdown::recv has returned)
+                   pub ghost signalled: bool }
 pub mod tokio {
     pub mod task {
         use super::super::*;
@@ -129,7 +131,8 @@ pub mod tokio {
         #[verifier::external_body]
         pub async fn spawn_blocking<T>(v: T, Tracked(b): Tracked<&mut BgLog>) -> (r: Result<T, JoinError>)
             ensures r matches Ok(x) ==> x == v,
-                    final(b).blocking_calls == old(b).blocking_calls + 1, final(b).ticks == old(b).ticks, final(b).last_sleep_ms == old(b).last_sleep_ms
+                    final(b).blocking_calls == old(b).blocking_calls + 1, final(b).ticks == old(b).ticks, final(b).last_sleep_ms == old(b).last_sleep_ms,
+                    final(b).signalled == old(b).signalled
         { unimplemented!() }
     }
     pub mod time {
@@ -137,7 +140,8 @@ pub mod tokio {
         /// tokio::time::sleep: completes after (at least) the given duration; how much later is the runtime's business
         #[verifier::external_body]
         pub async fn sleep(d: super::super::time::Duration, Tracked(b): Tracked<&mut BgLog>) -> (r: ())
-            ensures final(b).ticks == old(b).ticks + 1, final(b).last_sleep_ms == d.ms(), final(b).blocking_calls == old(b).blocking_calls
+            ensures final(b).ticks == old(b).ticks + 1, final(b).last_sleep_ms == d.ms(), final(b).blocking_calls == old(b).blocking_calls,
+                    final(b).signalled == old(b).signalled
         { unimplemented!() }
     }
 }
@@ -207,7 +211,10 @@ impl Shutdown {
     #[verifier::external_body]
     pub fn is_shutdown(&self) -> (r: bool) ensures r == self.fired() { unimplemented!() }
     #[verifier::external_body]
-    pub async fn recv(&mut self) -> (r: ()) ensures final(self).fired() { unimplemented!() }
+    pub async fn recv(&mut self, Tracked(b): Tracked<&mut BgLog>) -> (r: ())
+        ensures final(self).fired(), final(b).signalled, final(b).ticks == old(b).ticks, final(b).blocking_calls == old(b).blocking_calls,
+                final(b).last_sleep_ms == old(b).last_sleep_ms
+    { unimplemented!() }
 }
 /// rule R-select: which arm of a tokio::select! runs
 #[verifier::external_body]
